@@ -61,7 +61,8 @@ def mutate(rng, doc, version):
     for _ in range(rng.choice([1, 1, 1, 2, 2, 3])):
         k = rng.choice(["top-field", "el-field", "dup-el", "cycle", "self-signed", "dangling",
                         "target", "drop-el", "dup-name", "nonstring-name", "type", "grow",
-                        "elements-kind", "retarget-any", "hex-resize", "hex-resize"])
+                        "elements-kind", "retarget-any", "hex-resize", "hex-resize",
+                        "unicode-name"])
         els = d.get("elements")
         ok_els = isinstance(els, list) and els and all(isinstance(e, dict) for e in els)
         if k == "top-field":
@@ -82,6 +83,23 @@ def mutate(rng, doc, version):
             else:
                 e[f] = v
             labels.append("el:%s" % f)
+        elif k == "unicode-name" and ok_els:
+            # a name (and the references to it) with characters outside ASCII: accented,
+            # astral, NUL, a lone surrogate (valid JSON escape, not encodable as UTF-8)
+            e = rng.choice(els)
+            old = e.get("name")
+            new = "%s%s" % (old, rng.choice(["\u00e9", "\U0001f511", "\x00", "\ud83d", " ",
+                                             "\u202e", "\ud83d\ud83d"]))
+            for x in els:
+                if x.get("signed_by") == old:
+                    x["signed_by"] = new
+            e["name"] = new
+            if isinstance(d.get("targets"), list):
+                d["targets"] = [new if t == old else t for t in d["targets"]]
+            if rng.random() < 0.3:
+                # or only a signer reference of an element off every target's path
+                rng.choice(els)["signed_by"] = rng.choice([new, "nobody\ud83d"])
+            labels.append("unicode-name")
         elif k == "hex-resize" and ok_els:
             # still hex, but not the size / structure the element type needs (a quote that
             # is not a whole sgx_quote_t, a key of 3 bytes, DER cut short ...)
